@@ -407,6 +407,53 @@ theorem pairs_bounds (inp : Input) (hwf : WF inp) (δ : Rat) (u : DUnit) (relTol
   | degrees => exact pairs_bounds_angle _ _ _ _ _ _ _ _ hwf.2 ps hsel i j h
   | other => simp [selected] at hsel
 
+/-! ## order / uniqueness of the all-pairs selections, degrees band -/
+
+/-- the all-pairs path selection is sorted by start pose and has no duplicates -/
+theorem pathAll_pairs_sorted_nodup (acc : List Rat) (δ tol : Rat) :
+    (pairsByPathAll acc δ tol).Pairwise (fun p q => p.1 < q.1) ∧ (pairsByPathAll acc δ tol).Nodup := by
+  have h := List.pairwise_map.mp (pathAll_fst_lt acc δ tol)
+  refine ⟨h, h.imp ?_⟩
+  intro p q hpq e; subst e; omega
+
+/-- the all-pairs angle selection is in lexicographic order and has no duplicates: together with
+`angleAll_iff` the returned *list* is determined -/
+theorem angleAll_pairs_sorted_nodup (ang : Nat → Nat → Rat) (n : Nat) (δ tol : Rat) :
+    (pairsByAngleAll ang n δ tol).Pairwise (fun p q => p.1 < q.1 ∨ (p.1 = q.1 ∧ p.2 < q.2)) ∧
+    (pairsByAngleAll ang n δ tol).Nodup := by
+  have h : (pairsByAngleAll ang n δ tol).Pairwise (fun p q => p.1 < q.1 ∨ (p.1 = q.1 ∧ p.2 < q.2)) := by
+    unfold pairsByAngleAll
+    rw [List.pairwise_flatMap]
+    refine ⟨?_, ?_⟩
+    · intro i _
+      rw [List.pairwise_map]
+      refine List.Pairwise.imp ?_ ((List.pairwise_lt_range).filter _)
+      intro a b hab
+      right; exact ⟨rfl, by omega⟩
+    · refine List.Pairwise.imp ?_ (List.pairwise_lt_range)
+      intro a b hab p hp q hq
+      simp only [List.mem_map, List.mem_filter] at hp hq
+      obtain ⟨_, _, rfl⟩ := hp
+      obtain ⟨_, _, rfl⟩ := hq
+      left; exact hab
+  refine ⟨h, h.imp ?_⟩
+  intro p q hpq e; subst e; omega
+
+/-- the same for a delta in degrees: band `δ·(π/180)·(1 ± rel_tol)` on the angles in radians -/
+theorem angleAll_iff_rel_degrees (inp : Input) (δ relTol : Rat) (ps : IdPairs)
+    (hok : idPairsFromDelta inp δ .degrees relTol true = .ok ps) (i j : Nat) :
+    (i, j) ∈ ps ↔ i < j ∧ j < inp.n ∧ δ * (inp.pi / 180) * (1 - relTol) ≤ inp.ang i j ∧
+      inp.ang i j ≤ δ * (inp.pi / 180) * (1 + relTol) := by
+  obtain ⟨hsel, _⟩ := ((empty_is_filter_error inp δ .degrees relTol true).1 ps).mp hok
+  simp only [selected, angle_dispatch, if_true] at hsel
+  by_cases hc : δ < 0 ∨ (180 : Rat) < δ
+  · rw [if_pos hc] at hsel; cases hsel
+  · rw [if_neg hc] at hsel
+    cases hsel
+    rw [mem_angleAll]
+    have e1 : δ * (inp.pi / 180) - δ * relTol * (inp.pi / 180) = δ * (inp.pi / 180) * (1 - relTol) := by ring
+    have e2 : δ * (inp.pi / 180) + δ * relTol * (inp.pi / 180) = δ * (inp.pi / 180) * (1 + relTol) := by ring
+    rw [e1, e2]
 /-! ## non-vacuity: the hypotheses are satisfiable and the selectors select something -/
 
 /-- a 5-pose pose list: steps 1,1,3,1; consecutive rotations 1,1,2,1 (unit π/8); direct angles -/
